@@ -294,7 +294,7 @@ def run_shard(sh):
     flush()
     sh.counters['exhaustive histories'] += sh.evaluations
     full = alphabet(NAMES)
-    for i in range(6000 if quick else 200000):
+    for i in range(20000 if quick else 300000):
         idx += 1
         if not sh.mine(idx):
             continue
@@ -302,7 +302,7 @@ def run_shard(sh):
         regs = [o for o in full if o[0].startswith('reg')]
         prints = [o for o in full if o[0] == 'print']
         queries = [o for o in full if o[0] == 'isreg']
-        ops = tuple(rng.choice(regs if rng.random() < 0.45 else (prints if rng.random() < 0.55 else queries)) for _ in range(rng.randint(4, 12)))
+        ops = tuple(rng.choice(regs if rng.random() < 0.45 else (prints if rng.random() < 0.55 else queries)) for _ in range(rng.randint(4, 16)))
         pending.append(ops)
         if len(pending) >= 300:
             flush()
